@@ -165,11 +165,12 @@ theorem trim_keeps_valued_cells (cells : List Cell) :
 merged into another, renumbered or lost; unbounded number of rows) -/
 theorem checkSheet_after_trim (s : List Row) (h : Dense s) : checkSheet (trimRow s) = .ok (trimRow s) := by
   apply checkSheet_seq
-  apply trimRow_seq
-  apply seq_of_index
-  intro i hi
-  have := (h.2 i hi).1
-  omega
+  · apply trimRow_seq
+    apply seq_of_index
+    intro i hi
+    have := (h.2 i hi).1
+    omega
+  · rw [trimRow_length]; exact h.1
 
 /-- open: `checkRow` returns a dense row unchanged (row `i+1` inside the grid, any number of cells
 up to XFD): references decode to their own slot, nothing is rebuilt. Uses C20's codec round trip. -/
